@@ -281,6 +281,18 @@ pub fn pairs(quick: bool) -> Vec<(String, String)> {
             out.push((x.to_string(), y.to_string()));
         }
     }
+    // predicate names that differ by a leading h / t only (the prefixes of the here-/there-copies)
+    for (i, x) in a.iter().enumerate() {
+        for (j, y) in a.iter().enumerate() {
+            let both = format!("{x} {y}");
+            if !(both.contains("p(") && both.contains("q(")) || (quick && (i + j) % 2 != 0) {
+                continue;
+            }
+            for ren in [[("p", "hq")], [("p", "tq")]] {
+                out.push((crate::tasks::rename_words(x, &ren), crate::tasks::rename_words(y, &ren)));
+            }
+        }
+    }
     if !quick {
         // 2-rule programs against single rules and against permuted / extended variants
         let n = a.len();
@@ -308,7 +320,7 @@ pub fn run(run: &Run) {
     let all = pairs(quick);
     run.set_extra("pairs_generated", json!(all.len()));
     run.set_extra("configurations_per_pair", json!(cfgs().len()));
-    run.set_rule("every ordered pair of programs over a 40-program alphabet (thorough: + 2-rule programs) and a stride of the pairs of 546 grammar-generated rules (7 head kinds x bodies of 1-2 literals over q/1, p/1, r/0, s/2 and comparisons) x {tau-star, mu} x {independent, sequential} x simplify x eq-break, --direction universal (and forward/backward checked to select the same problems) x ALL classical interpretations of the h-/t-copies (incl. H not subset-of T): set refuting some forward (backward) problem vs set of pairs H subset-of T that satisfy the left (right) program but not the other under the reference semantics; non-trivial = distinct non-empty expected refutation table");
+    run.set_rule("every ordered pair of programs over a 40-program alphabet (thorough: + 2-rule programs) and a stride of the pairs of 546 grammar-generated rules (7 head kinds x bodies of 1-2 literals over q/1, p/1, r/0, s/2 and comparisons), plus the alphabet pairs that mention both p and q with p renamed to hq and to tq (names differing by a copy prefix only) x {tau-star, mu} x {independent, sequential} x simplify x eq-break, --direction universal (and forward/backward checked to select the same problems) x ALL classical interpretations of the h-/t-copies (incl. H not subset-of T): set refuting some forward (backward) problem vs set of pairs H subset-of T that satisfy the left (right) program but not the other under the reference semantics; non-trivial = distinct non-empty expected refutation table");
     run.assume("finite slice as in C01; h-/t-copies identified by the documented h/t prefixing");
     let limit = 6;
     let seed = run.seed as usize;
@@ -317,6 +329,7 @@ pub fn run(run: &Run) {
     idx.par_iter().for_each(|&i0| {
         let i = (i0 + seed) % total;
         let (l, r) = &all[i];
+        let _w = run.watch("pair", "pair", &format!("{l} || {r}"));
         let res = std::panic::catch_unwind(std::panic::AssertUnwindSafe(|| check_pair(Some(run), l, r, limit)));
         match res {
             Err(_) => run.violation(format!("panic|{l}|{r}"), json!({"kind": "panic", "left": l, "right": r})),
